@@ -108,12 +108,9 @@ func runC08(c *bx.Ctx) {
 	add := func(limit, desc string, p rtcp.Packet, over bool) {
 		cases = append(cases, c08case{limit, desc, p, over})
 	}
-	counts := []int{0, 1, 30, 31, 32, 33, 255, 256, 257}
-	texts := []int{0, 1, 254, 255, 256, 257, 511, 512}
-	if c.Thorough() {
-		counts = append(counts, 65535, 65536, 65537)
-		texts = append(texts, 65535, 65536, 65537)
-	}
+	// the 8- and 16-bit wrap points of counts and lengths belong to the quick tier as well
+	counts := []int{0, 1, 30, 31, 32, 33, 255, 256, 257, 287, 288, 65535, 65536, 65537, 65536 + 31}
+	texts := []int{0, 1, 254, 255, 256, 257, 511, 512, 65535, 65536, 65537, 65536 + 255}
 	t := ref.NewTagger()
 	rep := func(i int) rtcp.ReceptionReport {
 		return rtcp.ReceptionReport{SSRC: 0x80000000 + uint32(i), FractionLost: uint8(i), TotalLost: uint32(i), LastSequenceNumber: 7, Jitter: 8, LastSenderReport: 9, Delay: 10}
@@ -168,7 +165,7 @@ func runC08(c *bx.Ctx) {
 		}
 	}
 	// REMB
-	for _, n := range []int{0, 1, 254, 255, 256, 257, 511, 512} {
+	for _, n := range []int{0, 1, 254, 255, 256, 257, 511, 512, 65535, 65536, 65536 + 255} {
 		p := &rtcp.ReceiverEstimatedMaximumBitrate{SenderSSRC: 1, Bitrate: 1e6}
 		for i := 0; i < n; i++ {
 			p.SSRCs = append(p.SSRCs, uint32(i))
@@ -179,9 +176,9 @@ func runC08(c *bx.Ctx) {
 		add("remb-negative", fmt.Sprint("bitrate ", f), &rtcp.ReceiverEstimatedMaximumBitrate{SenderSSRC: 1, Bitrate: f}, true)
 	}
 	// CCFB
-	mbs := []int{0, 2, 16383, 16384, 16385, 16386, 32768}
+	mbs := []int{0, 2, 16383, 16384, 16385, 16386, 32768, 65535, 65536, 65537, 65536 + 16384, 65536 + 16385}
 	if c.Thorough() {
-		mbs = append(mbs, 65535, 65536, 65537)
+		mbs = append(mbs, 131072, 131073, 131072+16384)
 	}
 	for _, n := range mbs {
 		for _, pos := range []int{0, 1, 2} {
